@@ -620,7 +620,7 @@ package wal
 // ---------------------------------------------------------------------------
 
 //@ func (*WAL).StoreLogs
-//@   props C03 C05 C14
+//@   props C01 C03 C05 C14 C20
 //@   requires w.metaDB != nil && w.codec != nil && w.sf != nil && w.metrics != nil && av(w.s) != nil && WFS(av(w.s))
 //@   requires[assumed-headroom] Headroom(av(w.s))
 //@   requires forall i int :: 0 <= i && i < len(logs) ==> logs[i] != nil
@@ -637,6 +637,7 @@ package wal
 //@   ensures[C03.published-state-wf] av(w.s) != nil && WFS(av(w.s))
 //@   ensures[C05.store-last] old(w.closed) == 0 && result == nil && len(logs) > 0 ==> LastOf(av(w.s)) == logs[len(logs)-1].Index
 //@   ensures[C05.store-monotone] old(w.closed) == 0 && result == nil && len(logs) > 0 && old(LastOf(av(w.s))) > 0 ==> logs[0].Index == old(LastOf(av(w.s))) + 1
+//@   ensures[C01.ack-after-tail-append] old(w.closed) == 0 && result == nil && len(logs) > 0 ==> nevent("call:types.SegmentWriter.Append") == 1
 //@   ensures[C20.append-counts] result == nil && len(logs) > 0 ==> counter("log_appends") == old(counter("log_appends")) + 1
 //@        && counter("log_entries_written") == old(counter("log_entries_written")) + uint64(len(logs))
 //@   ensures[C20.append-counts-failed] result != nil || len(logs) == 0 ==> counter("log_appends") == old(counter("log_appends"))
